@@ -5,6 +5,7 @@ Model: JanetModel/GC/Model.lean (mirrors src/core/gc.c); tie: Gen/GC.lean (regen
 import JanetModel.GC.Collect
 import JanetModel.GC.Mutator
 import JanetModel.GC.Locked
+import JanetModel.GC.WeakLemmas
 
 namespace JanetModel.Props.C01
 open JanetModel.GC Std
@@ -110,13 +111,13 @@ theorem reachable_subset (h : Heap) (S : List Id) (hr : ∀ e ∈ h.roots, e.tgt
 
 /-- a cycle 0 ⇄ 1 hanging off the root fiber, and an unreferenced block 2 -/
 def cyclicHeap : Heap := Heap.ofList
-  [Obj.array false [.ref 1, .imm], Obj.array false [.ref 0], Obj.array false [.ref 0]] [⟨true, 0⟩]
+  [Obj.array false [.ref 1, .imm], Obj.array false [.ref 0], Obj.array false [.ref 0]] [⟨true, 0, false⟩]
 
 example : Reachable cyclicHeap 1 ∧ ¬ Reachable cyclicHeap 2 ∧
     (mark 1 cyclicHeap).marked.contains 1 = true ∧ (collect 1 cyclicHeap).get 2 = none := by
-  have r0 : Reachable cyclicHeap 0 := Reachable.root (e := ⟨true, 0⟩) (by decide) (by decide)
+  have r0 : Reachable cyclicHeap 0 := Reachable.root (e := ⟨true, 0, false⟩) (by decide) (by decide)
   have r1 : Reachable cyclicHeap 1 :=
-    Reachable.step (o := Obj.array false [.ref 1, .imm]) (e := ⟨true, 1⟩) r0 (by decide) (by decide) (by decide)
+    Reachable.step (o := Obj.array false [.ref 1, .imm]) (e := ⟨true, 1, false⟩) r0 (by decide) (by decide) (by decide)
   have n2 : ¬ Reachable cyclicHeap 2 := fun r => by
     have := reachable_subset cyclicHeap [0, 1] (by decide) (by decide) 2 r
     simp at this
@@ -131,17 +132,17 @@ def deadFiberHeap : Heap := Heap.ofList
     Obj.funcenv (some 4) Gen.GC.statusError [.ref 5],                                     -- 3 env on the stack of finished fiber 4
     Obj.fiber .imm [] [⟨none, none, [.ref 5]⟩] none none none [] none,     -- 4 the dead fiber
     Obj.array false [.imm] ]                                                -- 5 captured array
-  [⟨false, 0⟩]
+  [⟨false, 0, false⟩]
 
 example : Reachable deadFiberHeap 5 ∧ ¬ Reachable deadFiberHeap 4 ∧
     ((collect Gen.GC.recursionGuard deadFiberHeap).get 5).isSome ∧ (collect Gen.GC.recursionGuard deadFiberHeap).get 4 = none := by
-  have r0 : Reachable deadFiberHeap 0 := Reachable.root (e := ⟨false, 0⟩) (by decide) (by decide)
+  have r0 : Reachable deadFiberHeap 0 := Reachable.root (e := ⟨false, 0, false⟩) (by decide) (by decide)
   have r1 : Reachable deadFiberHeap 1 :=
-    Reachable.step (o := Obj.fiber .imm [] [⟨none, none, [.ref 1]⟩] none none none [] none) (e := ⟨true, 1⟩) r0 (by decide) (by decide) (by decide)
+    Reachable.step (o := Obj.fiber .imm [] [⟨none, none, [.ref 1]⟩] none none none [] none) (e := ⟨true, 1, false⟩) r0 (by decide) (by decide) (by decide)
   have r3 : Reachable deadFiberHeap 3 :=
-    Reachable.step (o := Obj.function (some 2) [3]) (e := ⟨false, 3⟩) r1 (by decide) (by decide) (by decide)
+    Reachable.step (o := Obj.function (some 2) [3]) (e := ⟨false, 3, false⟩) r1 (by decide) (by decide) (by decide)
   have r5 : Reachable deadFiberHeap 5 :=
-    Reachable.step (o := Obj.funcenv (some 4) Gen.GC.statusError [.ref 5]) (e := ⟨true, 5⟩) r3 (by decide) (by decide) (by decide)
+    Reachable.step (o := Obj.funcenv (some 4) Gen.GC.statusError [.ref 5]) (e := ⟨true, 5, false⟩) r3 (by decide) (by decide) (by decide)
   have n4 : ¬ Reachable deadFiberHeap 4 := fun r => by
     have := reachable_subset deadFiberHeap [0, 1, 2, 3, 5] (by decide) (by decide) 4 r
     simp at this
@@ -156,15 +157,15 @@ def weakHeap : Heap := Heap.ofList
     Obj.table true false [(.ref 2, .ref 3), (.ref 4, .ref 5)] none,                -- 1 weak-key table
     Obj.leaf Gen.GC.memString, Obj.leaf Gen.GC.memString,                          -- 2 live key, 3 its value
     Obj.leaf Gen.GC.memString, Obj.leaf Gen.GC.memString ]                         -- 4 dead key, 5 its value
-  [⟨false, 0⟩]
+  [⟨false, 0, false⟩]
 
 example : ¬ Reachable weakHeap 4 ∧ (collect Gen.GC.recursionGuard weakHeap).get 4 = none ∧
-    ∃ o', (collect Gen.GC.recursionGuard weakHeap).get 1 = some o' ∧ o'.entries = [⟨[2], [⟨true, 3⟩]⟩] := by
-  have r0 : Reachable weakHeap 0 := Reachable.root (e := ⟨false, 0⟩) (by decide) (by decide)
+    ∃ o', (collect Gen.GC.recursionGuard weakHeap).get 1 = some o' ∧ o'.entries = [⟨[2], [⟨true, 3, false⟩]⟩] := by
+  have r0 : Reachable weakHeap 0 := Reachable.root (e := ⟨false, 0, false⟩) (by decide) (by decide)
   have r1 : Reachable weakHeap 1 :=
-    Reachable.step (o := Obj.fiber .imm [] [⟨none, none, [.ref 1, .ref 2]⟩] none none none [] none) (e := ⟨true, 1⟩) r0 (by decide) (by decide) (by decide)
+    Reachable.step (o := Obj.fiber .imm [] [⟨none, none, [.ref 1, .ref 2]⟩] none none none [] none) (e := ⟨true, 1, false⟩) r0 (by decide) (by decide) (by decide)
   have r2 : Reachable weakHeap 2 :=
-    Reachable.step (o := Obj.fiber .imm [] [⟨none, none, [.ref 1, .ref 2]⟩] none none none [] none) (e := ⟨true, 2⟩) r0 (by decide) (by decide) (by decide)
+    Reachable.step (o := Obj.fiber .imm [] [⟨none, none, [.ref 1, .ref 2]⟩] none none none [] none) (e := ⟨true, 2, false⟩) r0 (by decide) (by decide) (by decide)
   have n4 : ¬ Reachable weakHeap 4 := fun r => by
     have := reachable_subset weakHeap [0, 1, 2, 3, 5] (by decide) (by decide) 4 r
     simp at this
@@ -197,7 +198,7 @@ user5–user9, alive) the mark phase leaves the environment on the stack, so the
 same slots whatever the collection schedule. -/
 theorem collect_preserves_env_mode (s : Nat) (hs : s < Gen.GC.statusNames.length) (hrun : fiberCanStillRun s = true)
     (f : Id) (values : List Val) :
-    envModeAfterMark (some f) s = .onStack f ∧ (Obj.funcenv (some f) s values).strong = [⟨true, f⟩] := by
+    envModeAfterMark (some f) s = .onStack f ∧ (Obj.funcenv (some f) s values).strong = [⟨true, f, false⟩] := by
   have key : ∀ s, s < Gen.GC.statusNames.length → fiberCanStillRun s = true → detachOnMark s = false := by decide
   have hd := key s hs hrun
   simp [envModeAfterMark, Obj.funcenv, hd]
@@ -239,6 +240,7 @@ theorem markSites_as_modelled : Gen.GC.markSites = [
   ("janet_mark_funcenv", "janet_mark_many", "env->as.values,env->length"),
   ("janet_mark_funcdef", "janet_gc_mark", "def"),
   ("janet_mark_funcdef", "janet_mark_many", "def->constants,def->constants_length"),
+  ("janet_mark_funcdef", "janet_mark_funcdef", "def->defs[i]@depth-1"),
   ("janet_mark_funcdef", "janet_mark_funcdef", "def->defs[i]"),
   ("janet_mark_funcdef", "janet_mark_string", "def->source"),
   ("janet_mark_funcdef", "janet_mark_string", "def->name"),
@@ -291,7 +293,9 @@ def markRank (f : String) : Nat :=
 /-- **Bounded C recursion of the mark phase.**  Every cycle of calls between `janet_mark_*` functions passes through
 `janet_mark` (where the depth counter is checked and the value is spilled when it reaches 0): the typed calls, regenerated
 from gc.c, strictly decrease `markRank` — except `janet_mark_funcdef → janet_mark_funcdef`, whose depth is the nesting
-depth of function definitions, bounded when the funcdef is built (compiler / unmarshal recursion guards).
+depth of function definitions, bounded when the funcdef is built (compiler / unmarshal recursion guards); since a60a379
+each nested funcdef also takes one level of the marking depth while one is left (model: `Edge.lvl`), so the values
+below it are deferred to the root list earlier.
 On the pinned tree this failed: `janet_mark_funcenv → janet_mark_fiber → janet_mark_function → janet_mark_funcenv`
 (witness: corpus/C01/regress/mark_recursion_chain.janet segfaults in the collector). -/
 theorem mark_typed_calls_acyclic :
@@ -467,5 +471,94 @@ example : runC0 lockedProg ⟨Heap.ofList [] [], 0, {}, []⟩ =
     [.handle 0, .obs (.obj 3 1), .obs (.obj 3 1), .obs (.obj 3 0)] := by decide
 /-- the discipline is needed: the same allocations without the lock are rejected -/
 example : disc 0 0 [.newLocal 3 [], .step (.emit (.root 0))] = false := by decide
+
+/-! ## Session 3 — weak containers at slot level
+
+Model: GC/Weak.lean mirrors the first pass of janet_sweep and janet_check_liveref on `data[0 .. capacity)` / `data[0 .. count)`
+(tombstone `(nil, false)`, `count--`, `deleted++`; weak arrays: `nil` in place, `count` unchanged); `absTable` / `absArray`
+abstract a block to the heap model's weak entries.  Tie: the pass's shape is asserted by the translator and the slots,
+`count` and `deleted` of every weak block are compared before/after the REAL sweep with the model's on sampled dumps. -/
+
+/-- the block a slot value refers to (if any) is reachable through strong references -/
+def svalReach (h : Heap) : SVal → Prop
+  | .ref j => Reachable h j
+  | _ => True
+
+/-- the weakly held side of a slot, by table kind: the key (weak-key), the value (weak-value), both (weak-key-value) -/
+def weakSideReachable (h : Heap) (kind : Nat) (kv : KV) : Prop :=
+  (checkKeys kind = true → svalReach h kv.key) ∧ (checkValues kind = true → svalReach h kv.value)
+
+theorem checkLiveref_iff_reach (h : Heap) (D : Nat) (hD : 1 ≤ D) (v : SVal) :
+    checkLiveref (mark D h).marked v = true ↔ svalReach h v := by
+  cases v with
+  | ref j => exact mark_eq_reachable h D hD j
+  | nil => simp [checkLiveref, svalReach]
+  | fls => simp [checkLiveref, svalReach]
+  | imm => simp [checkLiveref, svalReach]
+
+theorem dropSlot_iff (h : Heap) (D : Nat) (hD : 1 ≤ D) (kind : Nat) (kv : KV) :
+    dropSlot (mark D h).marked kind kv = false ↔ weakSideReachable h kind kv := by
+  unfold dropSlot weakSideReachable
+  rw [← checkLiveref_iff_reach h D hD kv.key, ← checkLiveref_iff_reach h D hD kv.value]
+  cases checkKeys kind <;> cases checkValues kind <;>
+    cases checkLiveref (mark D h).marked kv.key <;> cases checkLiveref (mark D h).marked kv.value <;> simp
+
+/-- which side each memory type holds weakly (regenerated numbering) -/
+theorem weak_kinds :
+    (checkKeys Gen.GC.memTableWeakK, checkValues Gen.GC.memTableWeakK) = (true, false) ∧
+    (checkKeys Gen.GC.memTableWeakV, checkValues Gen.GC.memTableWeakV) = (false, true) ∧
+    (checkKeys Gen.GC.memTableWeakKV, checkValues Gen.GC.memTableWeakKV) = (true, true) ∧
+    (checkKeys Gen.GC.memTable, checkValues Gen.GC.memTable) = (false, false) := by decide
+
+/-- **Weak tables, full strength.**  For every heap, every depth limit and every reachable weak table block (weak-key,
+weak-value or weak-key-value) given by its slot array: after `collect` the block is the abstraction of the C-shaped pass
+run with the collector's mark bits; slot by slot, an entry is left as it was iff its weak side is reachable through strong
+references and is otherwise replaced by the tombstone `(nil, false)`; `count` drops and `deleted` grows by the number of
+dropped slots; kind, prototype and every other strongly held reference are unchanged. -/
+theorem weak_table_survives_iff_reachable (h : Heap) (D : Nat) (hD : 1 ≤ D) (i : Id) (t : WTable)
+    (hk : checkKeys t.kind = true ∨ checkValues t.kind = true) (hg : h.get i = some (absTable t)) (r : Reachable h i) :
+    let m := (mark D h).marked
+    (collect D h).get i = some (absTable (sweepWeakTable m t)) ∧
+    (sweepWeakTable m t).data = t.data.map (fun kv => if dropSlot m t.kind kv then tombstone else kv) ∧
+    (∀ kv, dropSlot m t.kind kv = false ↔ weakSideReachable h t.kind kv) ∧
+    (sweepWeakTable m t).count = t.count - (t.data.filter (dropSlot m t.kind)).length ∧
+    (sweepWeakTable m t).deleted = t.deleted + (t.data.filter (dropSlot m t.kind)).length ∧
+    (absTable (sweepWeakTable m t)).kind = (absTable t).kind ∧ (absTable (sweepWeakTable m t)).strong = (absTable t).strong := by
+  intro m
+  have hm : (mark D h).marked.contains i = true := mark_complete h D hD i r
+  refine ⟨?_, sweepSlots_data m t.kind t.data t.count t.deleted, fun kv => dropSlot_iff h D hD t.kind kv, ?_, ?_, ?_, ?_⟩
+  · rw [absTable_sweep m t hk, collect_get, hg]; simp only [hm, if_true]; rfl
+  · simp [sweepWeakTable, sweepSlots_counts]
+  · simp [sweepWeakTable, sweepSlots_counts]
+  · rw [absTable_sweep m t hk]; rfl
+  · rw [absTable_sweep m t hk]; rfl
+
+/-- the table bookkeeping invariant (`count` = number of occupied slots, empty slots hold no reference) survives the pass -/
+theorem weak_table_wf_preserved (m : Std.HashSet Nat) (t : WTable) (hw : t.wf = true) : (sweepWeakTable m t).wf = true :=
+  sweepWeakTable_wf m t hw
+
+/-- **Weak arrays, full strength.**  After `collect` a reachable weak array keeps its length; slot by slot, an item is
+left as it was iff it is an immediate or its block is reachable through strong references, and is `nil` otherwise. -/
+theorem weak_array_survives_iff_reachable (h : Heap) (D : Nat) (hD : 1 ≤ D) (i : Id) (items : List SVal)
+    (hg : h.get i = some (absArray items)) (r : Reachable h i) :
+    let m := (mark D h).marked
+    (collect D h).get i = some (absArray (sweepWeakArray m items)) ∧
+    (sweepWeakArray m items).length = items.length ∧
+    (∀ v, (nilIfDead m v = v ∧ svalReach h v) ∨ (nilIfDead m v = .nil ∧ ¬ svalReach h v)) := by
+  intro m
+  have hm : (mark D h).marked.contains i = true := mark_complete h D hD i r
+  refine ⟨?_, by simp [sweepWeakArray], ?_⟩
+  · rw [absArray_sweep, collect_get, hg]; simp only [hm, if_true]; rfl
+  · intro v
+    by_cases c : checkLiveref m v = true
+    · exact Or.inl ⟨by simp [nilIfDead, c], (checkLiveref_iff_reach h D hD v).mp c⟩
+    · exact Or.inr ⟨by simp [nilIfDead, c], fun hr => c ((checkLiveref_iff_reach h D hD v).mpr hr)⟩
+
+/-- non-vacuity: a weak-key-value table with capacity 4: an empty slot, a live pair, a pair with a dead value, a tombstone -/
+def wkvTable : WTable :=
+  { kind := Gen.GC.memTableWeakKV, data := [⟨.nil, .nil⟩, ⟨.ref 2, .ref 3⟩, ⟨.ref 2, .ref 4⟩, ⟨.nil, .fls⟩], count := 2, deleted := 1 }
+
+example : wkvTable.wf = true := by decide
+example : (absTable wkvTable).entries = [⟨[2, 3], []⟩, ⟨[2, 4], []⟩] := by decide
 
 end JanetModel.Props.C01
